@@ -41,6 +41,12 @@ def gen_cases(tier, seed):
             for tup in tuples:
                 yield {"op": op, "impl": impl, "T": tup[0], "R": tup[1], "X": tup[2], "A": tup[3], "seed": "%d:%d" % (seed, i)}
                 i += 1
+    # a second scenario variant with many more await points (fragmented reads, multi-WRTE transfers, more chunks)
+    for op in OPS:
+        for impl in ("sync", "async"):
+            for tup in (tuples[:3] if tier == "quick" else tuples[::5]):
+                yield {"op": op, "impl": impl, "T": tup[0], "R": tup[1], "X": tup[2], "A": tup[3], "seed": "%d:v%d" % (seed, i), "variant": 1}
+                i += 1
 
 
 class StubSigner(object):
@@ -57,7 +63,10 @@ class StubSigner(object):
 def setup(impl, case):
     """fresh session + a function that performs the operation; returns (sess, do)"""
     sim = simdev.SimDevice(rng=gen.rng_for("C11sim", case["op"]), maxdata=4096, remote_ids="random")
-    sess = session.Session(impl, sim=sim, budget=200000)
+    big = case.get("variant") == 1
+    sess = session.Session(impl, sim=sim, budget=200000, frag="minus1" if big else "whole")
+    if big:
+        sim.maxdata = 8192
     T, R, X, A = case["T"], case["R"], case["X"], case["A"]
     op = case["op"]
     kw = {"transport_timeout_s": T, "read_timeout_s": R}
@@ -74,7 +83,7 @@ def setup(impl, case):
     out = sess.call("connect")
     assert out.ok
     if op in ("shell", "exec_out", "streaming_shell"):
-        sim.scripts[(b"exec:" if op == "exec_out" else b"shell:") + b"cmd"] = [b"one", b"two-two", b"3"]
+        sim.scripts[(b"exec:" if op == "exec_out" else b"shell:") + b"cmd"] = [b"one", b"two-two", b"3"] + ([b"chunk-%d" % k for k in range(6)] if big else [])
         kw2 = dict(kw, decode=False)
         if op != "streaming_shell":
             kw2["timeout_s"] = X
@@ -102,8 +111,8 @@ def setup(impl, case):
         def do():
             return sess.call("stat", "/s", **kw)
     elif op in ("pull", "pull-cb"):
-        plan.files[b"/f"] = scen.blob("c11", 9000)
-        plan.stats[b"/f"] = (0o100644, 9000, 1)
+        plan.files[b"/f"] = scen.blob("c11", 30000 if big else 9000)
+        plan.stats[b"/f"] = (0o100644, 30000 if big else 9000, 1)
         plan.recv_record_sizes[b"/f"] = [4000]
         plan.split_mode = "list"
         plan.split_sizes = [3000]
@@ -119,7 +128,7 @@ def setup(impl, case):
             return o
     elif op == "push":
         def do():
-            o = sess.call("push", io.BytesIO(scen.blob("c11p", 9000)), "/p", mtime=3, **kw)
+            o = sess.call("push", io.BytesIO(scen.blob("c11p", 40000 if big else 9000)), "/p", mtime=3, **kw)
             if o.ok:
                 o.value = [(bytes(p["path"]), bytes(p["data"]), p["status"]) for p in plan.pushed]
             return o
